@@ -571,29 +571,42 @@ cleanup:
 
 static int setService(HttpAsyncCtx *clientCtx, const char *url, const char *user, const char *pass) {
 	int res = KSI_UNKNOWN_ERROR;
+	char *tmp_url = NULL;
+	char *tmp_user = NULL;
+	char *tmp_pass = NULL;
 
 	if (clientCtx == NULL || url == NULL || user == NULL || pass == NULL) {
 		res = KSI_INVALID_ARGUMENT;
 		goto cleanup;
 	}
 
-	if (clientCtx->url) KSI_free(clientCtx->url);
-	clientCtx->url = NULL;
-	res = KSI_strdup(url, &clientCtx->url);
+	/* Make all the copies first, so that a failure leaves the current endpoint untouched. */
+	res = KSI_strdup(url, &tmp_url);
 	if (res != KSI_OK) goto cleanup;
 
-	if (clientCtx->ksi_user) KSI_free(clientCtx->ksi_user);
-	clientCtx->ksi_user = NULL;
-	res = KSI_strdup(user, &clientCtx->ksi_user);
+	res = KSI_strdup(user, &tmp_user);
 	if (res != KSI_OK) goto cleanup;
 
-	if (clientCtx->ksi_pass) KSI_free(clientCtx->ksi_pass);
-	clientCtx->ksi_pass = NULL;
-	res = KSI_strdup(pass, &clientCtx->ksi_pass);
+	res = KSI_strdup(pass, &tmp_pass);
 	if (res != KSI_OK) goto cleanup;
+
+	KSI_free(clientCtx->url);
+	clientCtx->url = tmp_url;
+	tmp_url = NULL;
+
+	KSI_free(clientCtx->ksi_user);
+	clientCtx->ksi_user = tmp_user;
+	tmp_user = NULL;
+
+	KSI_free(clientCtx->ksi_pass);
+	clientCtx->ksi_pass = tmp_pass;
+	tmp_pass = NULL;
 
 	res = KSI_OK;
 cleanup:
+	KSI_free(tmp_url);
+	KSI_free(tmp_user);
+	KSI_free(tmp_pass);
 	return res;
 }
 
